@@ -163,6 +163,17 @@ pub fn run(ctx: &'static Ctx) {
             l.fail(ctx, idx, v, || json!({"kind": "cmd-payload", "byte": byte, "payload": hex(&pl)}));
         }
     });
+    if ctx.thorough() {
+        sweep(ctx, "cmd-byte x every 3-byte payload", 256u64 << 24, "complete: 256 first bytes x all 16 777 216 three-byte payloads", |idx, l| {
+            let byte = (idx >> 24) as u8;
+            let p = [(idx >> 16) as u8, (idx >> 8) as u8, idx as u8];
+            l.nontrivial += 1;
+            let v = check_point(byte, &p);
+            if !v.ok {
+                l.fail(ctx, idx, v, || json!({"kind": "cmd-payload", "byte": byte, "payload": hex(&p)}));
+            }
+        });
+    }
     // the prototype credential-management byte must decode exactly like 0x0A: all 3-byte payloads
     sweep(ctx, "0x41 vs 0x0A on every 3-byte payload", 1 << 24, "complete", |idx, l| {
         let p = [(idx >> 16) as u8, (idx >> 8) as u8, idx as u8];
